@@ -286,6 +286,10 @@ def calls_for(rng, fut, n_random=30, full=False):
                 out.append(('get_trace', (rng.randrange(ntr), st, e)))
     for w in ((0, n_s + 1), (n_s, n_s + 1), (3, 3), (5, 2), (-1, 3), (0, sp.shape_pad[2]), (None, 3), (2, None)):
         out.append(('get_trace', (rng.randrange(ntr), w[0], w[1])))
+    if ntr == sp.tracecount:
+        # the documented flag override_unstructured_mapping has no effect on a regular file: same windows, same refusals
+        for w in ((0, n_s + 1), (n_s, n_s + 1), (3, 3), (5, 2), (max(0, n_s - 2), min(n_s + 2, sp.shape_pad[2])), (0, sp.shape_pad[2]), (1, n_s), (None, None)):
+            out.append(('get_trace', (rng.randrange(ntr), w[0], w[1], True)))
     cds = sorted({-n_xl, -n_xl + 1, -1, 0, 1, n_il - 1, n_il, (n_il - n_xl), (n_il - n_xl) + 1, (n_il - n_xl) - 1})
     for c in cds:
         out.append(('read_correlated_diagonal', (c, None, None, None, None)))
